@@ -7,6 +7,9 @@
 //! * `op wrap D N`: the wrap-around semantics the model's `stepW` assumes, observed on the atomic
 //!   type the source names (`AtomicUsize`/`AtomicU64`/`AtomicU32`): a local atomic of that type
 //!   starts at `2^w - D` and N `fetch_add(1)` calls report their return values.
+//! * `op wraplife`: if the source's counter type is at most 32 bits wide, 2^w + 1 real allocations
+//!   through `DialOpts` look for the reuse `C03.wrapping_reuse` predicts (a concrete failing
+//!   history); with the 64-bit counter of the unchanged tree nothing is run.
 //! * `op stress T K mode`: T OS threads, released together, allocate K ids each through the
 //!   public API — `DialOpts` builders (`dial`), incoming connections on one real `Swarm` per
 //!   thread (`swarm`), or both (`mixed`) — and the multiset of ids is summarised.
@@ -102,6 +105,41 @@ fn wrap(d: u64, n: usize) -> String {
     format!("w={} ids={}", w, l.join(","))
 }
 
+/// Search for a concrete reuse over a process lifetime when the counter is narrow enough to wrap
+/// in reachable time (`w <= 32`): allocate `2^w + 1` ids through the public `DialOpts` builder on
+/// 16 threads and report whether the first id was handed out again.  With a 64-bit counter the
+/// search space (2^64 + 1 allocations, `C03.wrapping_reuse`) is not explorable and nothing runs.
+fn wraplife() -> String {
+    let w: u32 = match counter_type() {
+        Some("AtomicUsize") => usize::BITS,
+        Some("AtomicU64") => 64,
+        Some("AtomicU32") => 32,
+        _ => return "wraplife unknown".into(),
+    };
+    if w > 32 {
+        return format!("w={w} reused=0");
+    }
+    let peer = hcore::peer(7);
+    let first = id_of(DialOpts::peer_id(peer).build().connection_id());
+    let threads = 16u64;
+    let per = ((1u64 << w) + threads) / threads;
+    let handles: Vec<_> = (0..threads)
+        .map(|_| {
+            std::thread::spawn(move || {
+                let mut hit = 0u64;
+                for _ in 0..per {
+                    if id_of(DialOpts::peer_id(peer).build().connection_id()) == first {
+                        hit += 1;
+                    }
+                }
+                hit
+            })
+        })
+        .collect();
+    let hits: u64 = handles.into_iter().map(|h| h.join().unwrap_or(0)).sum();
+    format!("w={w} reused={} first={first} allocations={}", (hits > 0) as u8, per * threads + 1)
+}
+
 fn dial_ids(k: usize, salt: usize) -> Vec<usize> {
     let peer = hcore::peer((salt % 200) as u8 + 1);
     let addr = Multiaddr::empty().with(Protocol::Memory(salt as u64 + 1));
@@ -181,6 +219,7 @@ fn apply(op: &[String]) -> String {
     let t: Vec<&str> = op.iter().map(|s| s.as_str()).collect();
     match t.as_slice() {
         ["shape"] => shape(),
+        ["wraplife"] => wraplife(),
         ["wrap", d, n] => match (d.parse::<u64>(), n.parse::<usize>()) {
             (Ok(d), Ok(n)) if d >= 1 && d <= 1 << 20 && n <= 64 => wrap(d, n),
             _ => "bad-op".into(),
@@ -223,6 +262,8 @@ pub fn run(args: &Args, out: &mut Out) {
         run_case(out, idx, "wrap", &[toks(format!("wrap {d} {n}"))]);
         idx += 1;
     }
+    run_case(out, idx, "wraplife", &[toks("wraplife".into())]);
+    idx += 1;
     // fixed ladder: the design's 16 threads x 50 000 (quick) / 2 000 000 (thorough) through DialOpts
     let big = if args.thorough { 2_000_000 } else { 50_000 };
     let ladder: Vec<(usize, usize, &str)> = vec![
